@@ -25,6 +25,9 @@ def x_obligations(tier):
     (s_, epre_, esuf_, fixed_, junk_, jpre_, jsuf_) = ("m/p/x/it/01/s/*", "m/p/x/it/01/s/", "", "m/p/x/it/01/s/d;m/p/x/it/01/s/i;m/p/x/it/01/p/t", "@/M/PROPS/x/it/01/x-it-SAV.02.d", "", "")
     o.append(Obl(f"C12-paths[miniB,{s_}]", "xhair.obl.c11", "paths_agree", env={"VF_CONF": "miniB", "VF_SEARCH": s_, "VF_EPRE": epre_, "VF_ESUF": esuf_, "VF_FIXED": fixed_, "VF_JUNK": junk_, "VF_JPRE": jpre_, "VF_JSUF": jsuf_},
                  timeout=T, path_timeout=200, family="C12-paths", bound="miniB: search over two types sharing one glob pattern; three path configurations over the glob model"))
+    (s2, epre2, esuf2, fixed2, junk2) = ("h/s/q1/v1/a,m", "h/s/q1/v1/", "", "h/s/q1/v1/m;h/s/q1/v1/c", "@/H/S/q1/v1/E/q1_v2.c")
+    o.append(Obl(f"C12-paths[{s2}]", "xhair.obl.c11", "paths_agree", env={"VF_SEARCH": s2, "VF_EPRE": epre2, "VF_ESUF": esuf2, "VF_FIXED": fixed2, "VF_JUNK": junk2, "VF_JPRE": "", "VF_JSUF": ""},
+                 timeout=T, path_timeout=200, family="C12-paths", bound="the file-system finder on an or-search whose first typed search has no path template: it still answers like the list search"))
     o.append(Obl("C12-order-repeat[caches on]", M, "order_repeat", env={"VF_CACHES": "1"}, timeout=T, family="C12-finder",
                  bound="6 searches (multi-type unfoldings, or-lists, a leaf) x 1..3 repetitions on one FindInAll, spil's caches ON: find_one / find / exists / as_sid forms agree every time"))
     for pre in ["h/a/x/v1/", "h/s/q1/v1/", "h/s/q1/v1/o/"]:
